@@ -5,23 +5,60 @@ oracle: the real containers, every operation documented as strongly safe, every 
 import os, re
 
 PARTS = {1: ['array', 'array_ic4', 'segarray', 'array_triv'],
-         2: ['hset_limp4', 'hset_open8', 'hset_limp', 'hset_limp4_nv'],
+         2: ['hset_limp4', 'hset_open8', 'hset_limp', 'hset_limp4_nv', 'hset_limp4_p4'],
          3: ['hmap_limp4', 'hmap_limp4_xc'],
          6: ['hmap_open8'],
          8: ['hmmap', 'hmmap_k3'],
-         4: ['tset_n4', 'tset_n4i', 'tset_n32', 'tset_n4_nv'],
+         4: ['tset_n4', 'tset_n4i', 'tset_n32', 'tset_n4_nv', 'tset_n4_p4'],
          5: ['tmap_n4', 'tmap_n4_xc'],
          7: ['tmap_n32'],
          9: ['hset_openn1_1', 'hset_openn1_3', 'hset_openn1_7', 'hset_open8r', 'hmap_open8r']}
-NOPS = {'array_triv': 30, 'hset_limp4_nv': 40, 'tset_n4_nv': 44, 'hmmap_k3': 40, 'hmap_open8r': 38, 'hset_openn1_1': 38, 'hset_openn1_3': 38, 'hset_openn1_7': 40, 'hset_open8r': 40, 'hmap_limp4_xc': 38, 'tmap_n4_xc': 42, 'array': 28, 'array_ic4': 28, 'segarray': 40, 'hset_limp4': 40, 'hset_open8': 40, 'hset_limp': 40, 'hmap_limp4': 38,
+NOPS = {'hset_limp4_p4': 40, 'tset_n4_p4': 44, 'array_triv': 30, 'hset_limp4_nv': 40, 'tset_n4_nv': 44, 'hmmap_k3': 40, 'hmap_open8r': 38, 'hset_openn1_1': 38, 'hset_openn1_3': 38, 'hset_openn1_7': 40, 'hset_open8r': 40, 'hmap_limp4_xc': 38, 'tmap_n4_xc': 42, 'array': 28, 'array_ic4': 28, 'segarray': 40, 'hset_limp4': 40, 'hset_open8': 40, 'hset_limp': 40, 'hmap_limp4': 38,
         'hmap_open8': 38, 'hmmap': 30, 'tset_n4': 44, 'tset_n4i': 44, 'tset_n32': 70, 'tmap_n4': 42, 'tmap_n32': 70}
 # no known findings on the current tree.  (Until b307610 the *_xc configurations - momo's DEFAULT extraCheckMode = assertion - aborted
 # when a functor threw inside the post-insertion self check pvExtraCheck; now they are plain positive tests: the operation completes.)
 KNOWN_KEYS = []
 
 
+GEN = ['gen_openn1_add.json', 'gen_open2n2_add.json']
+
+
+def gen_cases(ctx):
+    """translator validation: byte states of the real BucketOpenN1<3, both orientations> / BucketOpen2N2<3, true>, functor throwing or not"""
+    r = ctx.rng; out = []
+    reps = 8 if ctx.quick() else 60
+    for rev in (0, 1):
+        for count in range(0, 3):
+            for _ in range(reps):
+                by = [r.below(248) for _ in range(4)]
+                for i in range(count, 3):
+                    by[(2 - i) if rev else i] = 248
+                by[0 if rev else 2] = 248 + count
+                by[3] = r.below(256)
+                for f in (0, 1):
+                    out.append('genn1 - 0 0 add %d %d 0 0 0 %s %d' % (f, r.below(2 ** 64), ' '.join(map(str, by)), rev))
+                    for idx in range(count):
+                        out.append('genn1 - 0 0 rem %d 0 %d 0 0 %s %d' % (f, idx, ' '.join(map(str, by)), rev))
+        for _ in range(reps // 2):
+            by = [r.below(248) for _ in range(3)] + [r.below(256)]
+            for f in (0, 1):
+                for idx in range(3):
+                    out.append('genn1 - 0 0 rem %d 0 %d 0 0 %s %d' % (f, idx, ' '.join(map(str, by)), rev))
+    for count in range(0, 4):
+        for _ in range(reps):
+            st0 = r.below(256); st1 = (r.below(64) << 2) | count
+            sh = [r.below(256) for _ in range(3)]; hp = [r.below(256) for _ in range(3)]
+            tail = '%d %d %s %s' % (st0, st1, ' '.join(map(str, sh)), ' '.join(map(str, hp)))
+            for f in (0, 1):
+                if count < 3:
+                    out.append('geno2 - 0 0 add %d %d 0 %d %d %s' % (f, r.below(2 ** 64), r.below(40), r.below(300), tail))
+                for idx in range(3 - count, 3):
+                    out.append('geno2 - 0 0 rem %d 0 %d 0 0 %s' % (f, idx, tail))
+    return out
+
+
 def micro_cases(ctx):
-    cases = []
+    cases = gen_cases(ctx)
     N = 6 if ctx.quick() else 10
     for c in 'NCT':
         for n in range(0, N + 1):
@@ -228,7 +265,8 @@ def replay(ctx, rp):
 
 
 def run(ctx):
-    ctx.trusted += ['hand-written L2 resource machine (coq/Effects.v) and mechanism models; validated on every run by micro-correspondence '
+    ctx.trusted += ['tools/cxx2coq.py + clang 14 JSON AST for the generated part (validated on every run against the real functions)',
+                    'hand-written L2 resource machine (coq/Effects.v) and mechanism models; validated on every run by micro-correspondence '
                     '(identical event traces and final cell states against the real momo code on kit elements)',
                     'extraction: ExtrOcamlBasic only (no Extract Constant), OCaml 4.13.1',
                     'g++ 12 -std=c++17, harness/kit.h instrumentation, harness reaches private members via #define private public']
@@ -237,6 +275,8 @@ def run(ctx):
                         '(momo on GCC/Clang treats every type declaring a move constructor as nothrow relocatable; a throwing move inside such a relocation is std::terminate, outside the property)',
                         'maps are exercised with extraCheckMode = nothing (with the default assertion mode pvExtraCheck swallows a functor exception and asserts; reported)',
                         'documented exceptions honoured: Array/SegmentedArray Insert/Remove, multi-item Insert, predicate Remove, Merge*, Key&& argument, map Remove value (items 4/5)']
+    # T-gen: BucketOpenN1 / BucketOpen2N2 ::AddCrt and ::Remove are regenerated from /repo's headers (the functor is a step that may throw)
+    ctx.regen(GEN)
     # the C++ builds (9 translation units, in parallel) run concurrently with the Coq build
     import threading
     box = {}
@@ -253,6 +293,9 @@ def run(ctx):
         mism, _ = ctx.correspond('micro', cases, [micro], [ctx.model_exe])
         ctx.tie_obligations.append({'name': 'event traces + final cells of the model == real momo mechanisms on %d (mechanism, category, count, k) cases' % len(cases),
                                     'ok': not mism})
+        ngen = len([c for c in cases if c.startswith('gen')])
+        ctx.tie_obligations.append({'name': 'generated Gallina (AddCrt / Remove of BucketOpenN1, BucketOpen2N2, throwing and non-throwing functor) == real buckets, every byte, on %d cases' % ngen,
+                                    'ok': not [m for m in mism if m[1].startswith('gen')]})
         for (i, c, a, b) in mism[:3]:
             ctx.violation('model and implementation traces disagree', {'kind': 'micro', 'case': c, 'impl': a, 'model': b,
                           'cmd': 'echo "%s" | build/C04/micro' % c}, found_input=True)
